@@ -17,45 +17,47 @@ Definition fes35_tokens (pos : nat) (neg : bool) (gn : nat) (i : list rstep) (g1
   [TAct 39; TText pos (pos + (neg_len neg gn + 1 + List.length (render_steps i) + g1)); TAct 27].
 
 (* no comparison stands there: the operand is read (with its blanks), then no operator follows *)
-Lemma ev_rule39_exists_sp i g1 t pos : forallb rstep_ok i = true ->
-  evG (PRef 39) (64 :: render_steps i ++ blanks g1 ++ 41 :: t) pos PFail.
+Lemma ev_rule39_exists_sp i g1 c t pos : forallb rstep_ok i = true -> qend c ->
+  evG (PRef 39) (64 :: render_steps i ++ blanks g1 ++ c :: t) pos PFail.
 Proof.
-  intros Hs. assert (Hc : closer 41) by (unfold closer; repeat split; try reflexivity; discriminate).
-  pose proof (ev_rule43_sp i g1 41 t pos Hs Hc) as E43.
+  intros Hs Hq. pose proof (qend_closer c Hq) as Hc. pose proof (qend_32 c Hq) as H32.
+  pose proof (ev_rule43_sp i g1 c t pos Hs Hc) as E43.
+  assert (Hlit : forall s, (s = [61; 61] \/ s = [33; 61] \/ s = [60; 61] \/ s = [60] \/ s = [62; 61] \/ s = [62] \/ s = [61; 126]) -> strip_prefix s (c :: t) = None).
+  { intros s Hcase. destruct Hq as [E|[E|E]]; subst c; destruct Hcase as [E|[E|[E|[E|[E|[E|E]]]]]]; subst s; reflexivity. }
   eapply ev_ref; [reflexivity|].
   apply ev_alt_r.
   { eapply ev_seq_fail2.
     - eapply ev_ref; [reflexivity|]. apply ev_alt_r; [apply ev_seq_fail; apply ev_rule42_at|exact E43].
-    - eapply ev_seq_fail2; [apply ev_space_stop; discriminate|].
-      apply ev_alt_r; apply ev_seq_fail; apply (ev_lit_fail G); reflexivity. }
+    - eapply ev_seq_fail2; [apply ev_space_stop; exact H32|].
+      apply ev_alt_r; apply ev_seq_fail; apply (ev_lit_fail G); apply Hlit; auto 10. }
   apply ev_alt_r.
   { eapply ev_seq_fail2.
     - eapply ev_ref; [reflexivity|]. apply ev_alt_r; [apply ev_seq_fail; apply ev_rule45_at|exact E43].
-    - eapply ev_seq_fail2; [apply ev_space_stop; discriminate|].
-      apply ev_alt_r; [apply ev_seq_fail; apply (ev_lit_fail G); reflexivity|].
-      apply ev_alt_r; [apply ev_seq_fail; apply (ev_lit_fail G); reflexivity|].
-      apply ev_alt_r; apply ev_seq_fail; apply (ev_lit_fail G); reflexivity. }
+    - eapply ev_seq_fail2; [apply ev_space_stop; exact H32|].
+      apply ev_alt_r; [apply ev_seq_fail; apply (ev_lit_fail G); apply Hlit; auto 10|].
+      apply ev_alt_r; [apply ev_seq_fail; apply (ev_lit_fail G); apply Hlit; auto 10|].
+      apply ev_alt_r; apply ev_seq_fail; apply (ev_lit_fail G); apply Hlit; auto 10. }
   eapply ev_seq_fail2; [exact E43|].
-  eapply ev_seq_fail2; [apply ev_space_stop; discriminate|].
-  apply ev_seq_fail. apply (ev_lit_fail G). reflexivity.
+  eapply ev_seq_fail2; [apply ev_space_stop; exact H32|].
+  apply ev_seq_fail. apply (ev_lit_fail G). apply Hlit. auto 10.
 Qed.
 
-Lemma ev_rule44_sp i g1 t pos : forallb rstep_ok i = true ->
-  evG (PRef 44) (64 :: render_steps i ++ blanks g1 ++ 41 :: t) pos
-      (POk (41 :: t) (pos + 1 + List.length (render_steps i) + g1) ([TAct 38] ++ inner_tokens pos i ++ [TAct 39])).
+Lemma ev_rule44_sp i g1 c t pos : forallb rstep_ok i = true -> qend c ->
+  evG (PRef 44) (64 :: render_steps i ++ blanks g1 ++ c :: t) pos
+      (POk (c :: t) (pos + 1 + List.length (render_steps i) + g1) ([TAct 38] ++ inner_tokens pos i ++ [TAct 39])).
 Proof.
-  intros Hs. assert (Hc : closer 41) by (unfold closer; repeat split; try reflexivity; discriminate).
+  intros Hs Hq. pose proof (qend_closer c Hq) as Hc.
   eapply ev_ref; [reflexivity|].
   eapply ev_seq_ok; [apply ev_act| |reflexivity].
-  eapply ev_seq_ok; [apply (ev_rule3_cur_sp i g1 41 t pos Hs Hc)|apply ev_act|reflexivity].
+  eapply ev_seq_ok; [apply (ev_rule3_cur_sp i g1 c t pos Hs Hc)|apply ev_act|reflexivity].
 Qed.
 
-Lemma ev_rule35_fes neg gn i g1 t pos : forallb rstep_ok i = true ->
-  evG (PRef 35) (fes_inner neg gn i g1 ++ 41 :: t) pos
-      (POk (41 :: t) (pos + (neg_len neg gn + 1 + List.length (render_steps i) + g1)) (fes35_tokens pos neg gn i g1)).
+Lemma ev_rule35_fes neg gn i g1 c t pos : forallb rstep_ok i = true -> qend c ->
+  evG (PRef 35) (fes_inner neg gn i g1 ++ c :: t) pos
+      (POk (c :: t) (pos + (neg_len neg gn + 1 + List.length (render_steps i) + g1)) (fes35_tokens pos neg gn i g1)).
 Proof.
-  intros Hs. unfold fes_inner, fes35_tokens, neg_len. destruct neg.
-  - replace (((33 :: blanks gn) ++ 64 :: render_steps i ++ blanks g1) ++ 41 :: t) with (33 :: blanks gn ++ 64 :: render_steps i ++ blanks g1 ++ 41 :: t)
+  intros Hs Hq. unfold fes_inner, fes35_tokens, neg_len. destruct neg.
+  - replace (((33 :: blanks gn) ++ 64 :: render_steps i ++ blanks g1) ++ c :: t) with (33 :: blanks gn ++ 64 :: render_steps i ++ blanks g1 ++ c :: t)
       by (repeat (progress (cbn [app]) || rewrite <- app_assoc); reflexivity).
     eapply ev_conv.
     + eapply ev_ref; [reflexivity|].
@@ -63,21 +65,21 @@ Proof.
       apply ev_alt_r; [apply ev_seq_fail; apply ev_cap_fail; apply ev_rule39_bang|].
       eapply ev_seq_ok; [apply ev_cap| apply ev_act |reflexivity].
       eapply ev_seq_ok; [apply ev_opt_some; eapply ev_ref; [reflexivity|];
-                         eapply ev_seq_ok; [apply (ev_lit_ok G [33]); apply strip1_ok|apply (ev_space_blanks gn (64 :: render_steps i ++ blanks g1 ++ 41 :: t)); discriminate|reflexivity]| |reflexivity].
-      apply (ev_rule44_sp i g1 t _ Hs).
+                         eapply ev_seq_ok; [apply (ev_lit_ok G [33]); apply strip1_ok|apply (ev_space_blanks gn (64 :: render_steps i ++ blanks g1 ++ c :: t)); discriminate|reflexivity]| |reflexivity].
+      apply (ev_rule44_sp i g1 c t _ Hs Hq).
     + cbn [List.length app Nat.add]. f_equal; try lia.
       replace (pos + 1 + gn)%nat with (pos + S gn)%nat by lia.
       replace (pos + S gn + 1 + List.length (render_steps i) + g1)%nat with (pos + S (gn + 1 + List.length (render_steps i) + g1))%nat by lia.
       repeat (progress (cbn [app]) || rewrite <- app_assoc || rewrite app_nil_r). reflexivity.
-  - replace (([] ++ 64 :: render_steps i ++ blanks g1) ++ 41 :: t) with (64 :: render_steps i ++ blanks g1 ++ 41 :: t)
+  - replace (([] ++ 64 :: render_steps i ++ blanks g1) ++ c :: t) with (64 :: render_steps i ++ blanks g1 ++ c :: t)
       by (repeat (progress (cbn [app]) || rewrite <- app_assoc); reflexivity).
     eapply ev_conv.
     + eapply ev_ref; [reflexivity|].
       apply ev_alt_r; [apply ev_seq_fail; eapply ev_ref; [reflexivity|]; apply ev_seq_fail; apply (ev_lit_fail G [40]); reflexivity|].
-      apply ev_alt_r; [apply ev_seq_fail; apply ev_cap_fail; apply (ev_rule39_exists_sp i g1 t pos Hs)|].
+      apply ev_alt_r; [apply ev_seq_fail; apply ev_cap_fail; apply (ev_rule39_exists_sp i g1 c t pos Hs Hq)|].
       eapply ev_seq_ok; [apply ev_cap| apply ev_act |reflexivity].
       eapply ev_seq_ok; [apply ev_opt_none; eapply ev_ref; [reflexivity|]; apply ev_seq_fail; apply (ev_lit_fail G [33]); reflexivity| |reflexivity].
-      apply (ev_rule44_sp i g1 t pos Hs).
+      apply (ev_rule44_sp i g1 c t pos Hs Hq).
     + cbn [List.length app Nat.add]. rewrite Nat.add_0_r. f_equal; try lia.
       replace (pos + 1 + List.length (render_steps i) + g1)%nat with (pos + S (List.length (render_steps i) + g1))%nat by lia.
       repeat (progress (cbn [app]) || rewrite <- app_assoc || rewrite app_nil_r). reflexivity.
@@ -93,7 +95,7 @@ Proof.
   intros Hs. unfold fes_tokens. cbv zeta.
   set (X := fes_inner neg gn i g1). pose proof (fes_inner_len neg gn i g1) as HX. fold X in HX.
   assert (E35 : evG (PRef 35) (X ++ blanks 0 ++ 41 :: 93 :: r) (pos + 3 + g0) (POk (blanks 0 ++ 41 :: 93 :: r) (pos + 3 + g0 + List.length X) (fes35_tokens (pos + 3 + g0) neg gn i g1))).
-  { cbn [blanks repeat app]. rewrite HX. apply (ev_rule35_fes neg gn i g1 (93 :: r) (pos + 3 + g0) Hs). }
+  { cbn [blanks repeat app]. rewrite HX. apply (ev_rule35_fes neg gn i g1 41 (93 :: r) (pos + 3 + g0) Hs (or_introl eq_refl)). }
   replace (fes_text neg g0 gn i g1 ++ r) with ([91; 63; 40] ++ blanks g0 ++ X ++ blanks 0 ++ [41; 93] ++ r)
     by (unfold fes_text; fold X; cbn [blanks repeat]; repeat (progress (cbn [app]) || rewrite <- app_assoc); reflexivity).
   eapply ev_conv; [apply (ev_rule7_of35_sp g0 X 0 r pos _ ltac:(unfold X, fes_inner; destruct neg; intros x0 r0 E; inversion E; discriminate) ltac:(unfold X, fes_inner; destruct neg; discriminate) E35)|].
